@@ -51,7 +51,21 @@ let item_ s : M.item =
 
 let project_ s : M.project = list_ (pair_ str_ (list_ item_)) s
 
+(* walked file: ((comp ...) (parsed (item ...)) | (unparsable) | (notutf8)) *)
+let lcontent_ s : M.lcontent =
+  match list s with
+  | [Atom "parsed"; its] -> M.LParsed (list_ item_ its)
+  | [Atom "unparsable"] -> M.LUnparsable
+  | [Atom "notutf8"] -> M.LNotUtf8
+  | _ -> failwith "c07: bad file content"
+let walk_ s : M.lproject = list_ (pair_ (list_ str_) lcontent_) s
+
 let () =
+  (* (root walk plain-types.ts zod-types.ts) *)
+  Registry.register "eval-layout" (fun s ->
+    match list s with
+    | [root; w; plain; zod] -> of_sx (M.c07_layout_eval (str_ root) (walk_ w) (str_ plain) (str_ zod))
+    | _ -> failwith "c07-eval-layout: bad case");
   (* (project plain-types.ts zod-types.ts) *)
   Registry.register "eval" (fun s ->
     match list s with
